@@ -98,8 +98,9 @@ class BuiltinMixin:
     def b_id(self, st, args, kwargs, node):
         self.notes.append(f"id() used at L{node.lineno}")
         self.uses_id = True
-        r = self.fresh_val("id", sort="I")
-        return [(st, r)]
+        f = self.declare_fun("py_id", ["V"], "Int")
+        self.trusted_used.add("id(x) is an injective-on-live-objects integer py_id(x) (never an output; only membership tests)")
+        return [(st, mkI(f"({f} {asV(self.lift(args[0]))})"))]
 
     def b_type(self, st, args, kwargs, node):
         if len(args) != 1:
@@ -448,6 +449,9 @@ class BuiltinMixin:
         if name == "format" and isinstance(recv, PyC) and isinstance(recv.obj, str):
             return self.str_format(st, recv.obj, args, kwargs, node)
         if name == "join":
+            items = self.static_items(args[0]) if args else None
+            if isinstance(recv, PyC) and isinstance(recv.obj, str) and items is not None and all(isinstance(i, PyC) and isinstance(i.obj, str) for i in items):
+                return [(st, PyC(recv.obj.join(i.obj for i in items)))]
             r = self.fresh_val("join", sort="S")
             return [(st, r)]
         if isinstance(recv, SDict) and recv.term is None and name == "get" and isinstance(args[0], PyC) and isinstance(args[0].obj, str):
@@ -471,6 +475,20 @@ class BuiltinMixin:
                 return [(st, args[1])]
             if name == "items":
                 return [(st, PyList([PyList([PyC(k), v], "tuple") for k, v in recv.items()], "list"))]
+        if name == "add" and isinstance(node, ast.Call) and isinstance(node.func, ast.Attribute) and \
+                ((isinstance(recv, Val) and recv.kind == "set") or (isinstance(recv, PyList) and recv.kind == "set")):
+            lr = self.lift(recv)
+            target = node.func.value
+            self.frame_write(st, lr, lr.origin or ast.unparse(target), node)
+            x = asV(self.lift(args[0]))
+            r = self.fresh_val("setadd", kind="set")
+            r.fresh, r.origin = lr.fresh, lr.origin
+            y = fresh_name("y")
+            st.assume(f"(k_set {r.t})", fact=True)
+            st.assume(f"(forall (({y} V)) (! (= (seq_has_pyeq (sitems {r.t}) {y} 0) (or (seq_has_pyeq (sitems {asV(lr)}) {y} 0) (py_eq {y} {x}))) :pattern ((seq_has_pyeq (sitems {r.t}) {y} 0))))", fact=True)
+            self.trusted_used.add("set.add: membership of the new set = old membership or == the added element (library axiom)")
+            res = self.store_back(st, target, r, node)
+            return [(s_, r_[1] if r_ else PyC(None)) for s_, r_ in res]
         if name in ("append", "extend", "insert") and (isinstance(recv, PyList) or (isinstance(recv, Val) and recv.kind == "list")) \
                 and isinstance(node, ast.Call) and isinstance(node.func, ast.Attribute):
             # list mutators: a pure update of the value plus a write-back to the place the list was read from
